@@ -57,6 +57,16 @@ func checkC08(r *Run) {
 		if strings.HasPrefix(k, "table/") {
 			r.Bad(v.rule, v.key, v.pos, v.reason)
 		}
+		// "a partial or failed walk binds nothing … clunk and remove always unbind the fid, which may then be reused":
+		// a reservation left in the table after a failed operation keeps the fid number unusable
+		if v.rule == "own/placeholder-left" {
+			r.Bad("table/reservation-left", v.key, v.pos, v.reason)
+		}
+	}
+	// … and a fid whose lock is still held when an operation returns can never be used, unbound or reused
+	{
+		tsL, fnsL := runSessionTypestate(p, false)
+		lockPairingInto(r, tsL, fnsL, "fid-usable")
 	}
 
 	// (1) who may access the table, and how
